@@ -67,8 +67,9 @@ package dns
 //@   loop 1 invariant len(keys) == rangeindex + 1 && rangeindex < len(rrs)
 //@   loop 2 invariant 0 <= j && j <= rangeindex + 1 && rangeindex < len(rrs) && len(keys) == len(rrs)
 //@   assert at "mrh.Ttl = rh.Ttl" lower: rh.Ttl < mrh.Ttl
-// m is scratch space: an empty map handed in comes back empty, so that it can be handed in again
-//@   ensures scratch: m != nil && old(len(m)) == 0 ==> len(m) == 0
+// m is scratch space ("used to store the RRs temporary"): the early return for a set without duplicates leaves
+// nothing behind in it, like the general path, so that the map can be handed in again
+//@   assert at "return rrs@1" scratch: len(m) == 0
 
 // SVCB parameter lists are equal only if, pairwise after sorting, the keys are equal and the packed values
 // are equal: the values of a pair are looked at only after its keys have been compared
